@@ -270,6 +270,34 @@ impl FileLines {
     }
 }
 
+#[cfg(rustfmt_verif)]
+impl FileLines {
+    pub(crate) fn verif_query(
+        &self,
+        file_name: &FileName,
+        lo: usize,
+        hi: usize,
+    ) -> (bool, bool, Vec<bool>) {
+        (
+            self.contains_range(file_name, lo, hi),
+            self.file_range_matches(file_name, |r| r.intersects(Range::new(lo, hi))),
+            (lo..=hi)
+                .map(|l| self.contains_line(file_name, l))
+                .collect(),
+        )
+    }
+
+    pub(crate) fn verif_ranges(&self, file_name: &FileName) -> Vec<(usize, usize)> {
+        match self.0 {
+            None => vec![(0, usize::MAX)],
+            Some(ref map) => canonicalize_path_string(file_name)
+                .and_then(|f| map.get(&f))
+                .map(|v| v.iter().map(|r| (r.lo, r.hi)).collect())
+                .unwrap_or_default(),
+        }
+    }
+}
+
 /// `FileLines` files iterator.
 pub struct Files<'a>(Option<::std::collections::hash_map::Keys<'a, FileName, Vec<Range>>>);
 
